@@ -214,6 +214,13 @@ class Program:
             self.impl_span[re.search(r'<impl at [^>]*>', name).group(0)] = (trait, ty)
             self.by_method.setdefault((trait, ty, m.group(6)), f)
             if trait == 'Drop' and m.group(6) == 'drop': self.drop_impls[ty] = f
+        for cname in self.consts:
+            sp = re.search(r'<impl at ([\w/.\-]+\.rs):(\d+):(\d+): (\d+):(\d+)>', cname)
+            if not sp or sp.group(0) in self.impl_span: continue
+            lines = src(sp.group(1))
+            if lines is None: continue
+            lm = re.match(r'\s*(?:unsafe )?impl(?:<[^>]*>)?\s+(?:([\w:]+)(?:<[^>]*>)?\s+for\s+)?(\w+)', lines[int(sp.group(2)) - 1])
+            if lm: self.impl_span[sp.group(0)] = (lm.group(1).split('::')[-1] if lm.group(1) else None, lm.group(2))
 
 
 class Engine:
@@ -385,7 +392,7 @@ class Engine:
         self.place_cache[s0] = p
         return p
 
-    def loc(self, fr, place):
+    def loc(self, fr, place, for_write=False):
         base, proj = place
         cont, key = fr, base; is_slice = False
         for p in proj:
@@ -411,8 +418,12 @@ class Engine:
             elif k0 == 'field':
                 v = cont[key]
                 if v.__class__ is EnumV: cont, key = v.fields, p[1]
-                elif v.__class__ is list: cont, key = v, p[1]
-                elif v is UNINIT: raise Panic('uninit', 'field of uninitialized value')
+                elif v.__class__ is list:
+                    if for_write and p[1] >= len(v) and all(x is UNINIT for x in v): v.extend([UNINIT] * (p[1] + 1 - len(v)))
+                    cont, key = v, p[1]
+                elif v is UNINIT:
+                    if not for_write: raise Panic('uninit', 'field of uninitialized value')
+                    v = [UNINIT] * (p[1] + 1); cont[key] = v; cont, key = v, p[1]
                 elif v.__class__ is Ref and v.meta is not None:
                     # fat pointer fields (data ptr, len): synthesize
                     cont, key = [Ref(v.root, v.path, None, v.alloc), IntV(self.PW, v.meta)], p[1]
@@ -444,7 +455,7 @@ class Engine:
 
     def write_place(self, fr, place, val):
         if not place[1]: fr[place[0]] = val; return
-        c, k = self.loc(fr, place)
+        c, k = self.loc(fr, place, True)
         if c == 'table': raise Panic('write', 'write to constant table')
         if c.__class__ is list and k >= len(c): raise Panic('oob', 'write past the end of allocation')
         c[k] = val
@@ -540,6 +551,10 @@ class Engine:
                 cs = [k for k in cs if ok(k)]
             if len(cs) == 1: key = cs[0]
             else: raise Unsupported(f'promoted constant {c}: {len(cs)} candidate definitions')
+        am = re.match(r'^(?:[\w]+::)*(\w+)(?:::<.*>)?::([A-Z_][A-Z0-9_]*)$', c)
+        if am and c not in self.consts:
+            cs = [k for k in self.consts if k.endswith('>::' + am.group(2)) and self.P.impl_span.get((re.search(r'<impl at [^>]*>', k) or re.match('', '')).group(0) if re.search(r'<impl at [^>]*>', k) else '', (None, None))[1] == am.group(1)]
+            if len(cs) == 1: key = cs[0]
         cands = [k for k in self.consts if key == k or key.endswith('::' + k) or k.endswith('::' + key)]
         if len(cands) >= 1:
             k = sorted(cands, key=len)[-1]
